@@ -303,6 +303,7 @@ func (fe *FnEnc) run(args []Val) {
 				fe.curLoops = append(fe.curLoops, li)
 			}
 		}
+		sort.Slice(fe.curLoops, func(i, j int) bool { return fe.curLoops[i].ordinal < fe.curLoops[j].ordinal })
 		type inEdge struct {
 			predIdx int
 			pred    *ssa.BasicBlock
@@ -524,7 +525,9 @@ func (fe *FnEnc) havocKeys(keys map[string]bool) {
 			gk := strings.TrimPrefix(k, "ghost:")
 			fe.mem.ghost[gk] = fe.s.fresh("hg", fe.g.ghostSort(gk))
 		} else {
-			fe.mem.heaps[k] = fe.s.fresh("hh", fe.s.heapSort[k])
+			h := fe.s.fresh("hh", fe.s.heapSort[k])
+			fe.mem.heaps[k] = h
+
 		}
 	}
 }
